@@ -254,11 +254,31 @@ func init() {
 			ex.recTag = tb
 			ex.callValue(args[2], nil, site)
 			ex.recording = false
-			c, cell := ex.conflicts(ta, tb)
+			c, cell, side := ex.conflictsSide(ta, tb)
 			// forget the records of this pair
 			ex.accesses = ex.accesses[:0]
 			if c {
-				ex.obligationMsg(ex.tc.False, label, "race", site, "unsynchronised conflicting accesses: "+cell)
+				// the finding is identified by the operation that touched shared state
+				// WITHOUT a lock (label race/<Type>/<op>/unlocked), not by every pair it
+				// races with: "race/<Type>/<a>|<b>" -> culprit a, b or the pair
+				vlabel := label
+				if i := strings.LastIndex(label, "/"); i >= 0 {
+					if ops := strings.Split(label[i+1:], "|"); len(ops) == 2 {
+						switch side {
+						case "A":
+							vlabel = label[:i+1] + ops[0] + "/unlocked-access"
+						case "B":
+							vlabel = label[:i+1] + ops[1] + "/unlocked-access"
+						default:
+							if ops[0] == ops[1] {
+								vlabel = label[:i+1] + ops[0] + "/unlocked-access"
+							} else {
+								vlabel = label + "/no-common-lock"
+							}
+						}
+					}
+				}
+				ex.obligationMsg(ex.tc.False, vlabel, "race", site, "unsynchronised conflicting accesses ("+label+"): "+cell)
 			} else {
 				ex.obligation(ex.tc.True, label, "race", site)
 			}
